@@ -97,3 +97,22 @@ def three_prime_enzymes():
             continue
         out.append(e)
     return out
+
+
+def degenerate_site_enzymes():
+    """single-cut, non-palindromic Type IIS cutters whose recognition site contains an ambiguity code (Eco57MI
+    CTGRAG, MmeI TCCRAC …), either overhang side: signature-typed part classes accept them"""
+    import re
+    out = []
+    for e in sorted(Restriction.AllEnzymes, key=str):
+        try:
+            if e.is_blunt() or e.is_unknown() or e.is_palindromic() or e.cut_twice():
+                continue
+        except Exception:
+            continue
+        if re.fullmatch("[ACGT]+", e.site) or not re.fullmatch("[ACGTRYSWKM]+", e.site):
+            continue
+        if e.fst5 - len(e.site) < 0 or e.fst3 is None or abs(e.ovhg) < 1:
+            continue
+        out.append(e)
+    return out
